@@ -85,6 +85,10 @@ def sweep(ctx, rep, model, focus):
                                    data=["tags", "bits"][si % 2], B=[2, 2, 2, 1][si % 4], layout=["scatter", "files", "perm"][si % 3],
                                    nblk=(([2, 1, 1] if si % 3 != 1 else [2, 2]) if si % 4 != 3 else ([3, 2, 2] if si % 3 != 1 else [3, 3]))
                                    if ctx.quick else None, refine_p=0.3)
+        if focus == "C20" and si % 4 == 2:
+            # cell indices with four and five digits (a fine level far from the index origin): FAB header lines of more
+            # than 100 bytes; only for the read-after-validation sweep (coordinate validation is not part of it)
+            spec["idx_shift"] = [1000, 12345][si % 8 == 2]
         pristine = ctx.newdir("c04p_")
         plotgen.materialize(spec, pristine)
         ptree = tastelib.snapshot(pristine)
